@@ -230,6 +230,7 @@ impl Env {
             match *e {
                 Ev::R(i) => {
                     // a reader connection only sees committed batches
+                    self.commit();
                     verif_clock::set(BASE + mdate_of(i));
                     let (text, mut params) = self.mutation_text(&s.muts[i]);
                     let p = self.parser(&text);
